@@ -223,6 +223,11 @@ ERR_SITES = [
     ('second-of-two', ['hi = 1; hj = hi * hj;']), ('after-label', ['again:', '  hi = hi * hj;']), ('local-init', ['{', '  char l = hv();', '  hi = l;', '}'], 1),
 ]
 
+# errors that need a bankswitching scheme: a call into another bank when the program forgot to declare ROM_SELECT
+ERR_SITES_ARGS = [('bank-call-%s' % sn, st, ['bank1 void hbank() { hi = 1; }', 'bank1 char hbankv() { return 1; }'], ['-D' + d])
+                  for sn, d in (('3E', '__3E__'), ('SG', '__SUPERGAME__'), ('SGX', '__SUPERGAME_EXFIX__')) for st in (['hbank();'], ['hi = hbankv();'], ['if (hi) {', '  hbank();', '}'])]
+ERR_SITES_ARGS = [(n + '-%d' % k, st, dcl, a) for k, (n, st, dcl, a) in enumerate(ERR_SITES_ARGS)]
+
 
 def site_sources():
     """a statement the generator rejects, at a known place of main: the error must lie inside the statement's lines (the generator
@@ -231,12 +236,13 @@ def site_sources():
     where there is one"""
     out = []
     pres = [('plain', []), ('comment3', ['/* three', '   lines', '   end */']), ('define-blank', ['#define HK 3', '']), ('splice', ['char hs \\', ' ;']), ('if0', ['#if 0', 'garbage ((', '#endif'])]
-    for ent in ERR_SITES:
+    for ent in ERR_SITES + [(n, st, None, dcl, a) for n, st, dcl, a in ERR_SITES_ARGS]:
         name, stmt = ent[0], ent[1]
         exact = ent[2] if len(ent) > 2 else None
+        xdecl, xargs = (ent[3], ent[4]) if len(ent) > 4 else ([], [])
         for pn, pre in pres:
             for fn in ('main', 'func'):
-                lines = list(SITE_DECLS) + pre
+                lines = list(SITE_DECLS) + xdecl + pre
                 lines += ['void main()' if fn == 'main' else 'void worker()', '{', '  hj = 2;']
                 first = len(lines) + 1
                 ind = '' if pn in ('comment3', 'if0') else '  '          # also statements that start in column one
@@ -245,7 +251,7 @@ def site_sources():
                 lines += ['  hj = 3;', '}']
                 if fn == 'func': lines += ['void main() { worker(); }']
                 ok = {first + exact} if exact is not None else set(range(first, last + 1))
-                out.append(('site/%s/%s/%s' % (name, pn, fn), '\n'.join(lines) + '\n', ok))
+                out.append(('site/%s/%s/%s' % (name, pn, fn), '\n'.join(lines) + '\n', ok, xargs))
     return out
 
 
@@ -292,18 +298,18 @@ def check_sites_and_display(rep, tier, st):
     d = os.path.join(common.CACHE, 'c06_inc')
     S = site_sources()
     if tier == 'quick': S = [x for x in S if x[0].endswith('/main') or common_pick(x[0], 40)]
-    R = common.compile_many([('s%d' % k, ['-I', d], s) for k, (pid, s, ok) in enumerate(S)])
-    for k, (pid, s, ok) in enumerate(S):
+    R = common.compile_many([('s%d' % k, ['-I', d] + xa, s) for k, (pid, s, ok, xa) in enumerate(S)])
+    for k, (pid, s, ok, xa) in enumerate(S):
         c = R['s%d' % k]
         if c.status in ('panic', 'timeout', 'crash'):
-            rep.violation('loc.crash.' + pid, 'error site %s: the compiler %s instead of reporting a located error: %s' % (pid, c.status, c.msg), dict(kind='loc', source=s, args=['-I', d], expect=['stdin', sorted(ok), None], got=[c.status, c.msg])); continue
+            rep.violation('loc.crash.' + pid, 'error site %s: the compiler %s instead of reporting a located error: %s' % (pid, c.status, c.msg), dict(kind='loc', source=s, args=['-I', d] + xa, expect=['stdin', sorted(ok), None], got=[c.status, c.msg])); continue
         if c.status != 'err' or not c.err or 'line' not in c.err: st['sites_accepted'] += 1; continue      # the statement is accepted (or the error has no location): nothing to locate
         st['sites'] += 1
         e = c.err
         if os.path.basename(e['filename']) == 'stdin' and e['line'] in ok and not e.get('included_in'): st['sites_located'] += 1
         else:
             rep.violation('loc.%s' % pid, 'error site %s: the rejected statement is on line(s) %s, the error is reported at %s:%d (%s)' % (pid, sorted(ok), os.path.basename(e['filename']), e['line'], e.get('msg', '')[:70]),
-                          dict(kind='loc', source=s, args=['-I', d], expect=['stdin', sorted(ok), None], got=[os.path.basename(e['filename']), e['line'], e.get('included_in'), e.get('msg')]))
+                          dict(kind='loc', source=s, args=['-I', d] + xa, expect=['stdin', sorted(ok), None], got=[os.path.basename(e['filename']), e['line'], e.get('included_in'), e.get('msg')]))
 
 
 def common_pick(pid, pct):
